@@ -33,7 +33,7 @@ META = dict(
          'pybufrkit, plus a structural oracle recomputing every length field.',
     technique='Lean 4 theorems (section-local frame lemma, prefix-determined readers, induction over the section loop) + checked '
               'model/implementation correspondence + structural oracle',
-    note='The data section content is abstract in the theorems (payload bits on the encode side, any prefix-determined reader on '
+    note='Source tie: the end of Decoder.process_section (the declared-section-length block: padding skipped, overrun refused, bits returned; decoder.py:150-160, a fragment — the parameter loop is not translated) is re-translated from the repository into Lean on every check and C04_src_finish_section_eq proves it equal to the model finishSection for all corresponding bit-reader / section callbacks. The data section content is abstract in the theorems (payload bits on the encode side, any prefix-determined reader on '
          'the decode side); the correspondence instantiates it with templates of k one-bit elements. Edition 1 is outside the '
          'property (its layout has no section length and pybufrkit cannot decode it); the decoder never checks the total length '
          'field (modelled as such).')
